@@ -3,6 +3,7 @@ package main
 import (
 	"encoding/json"
 	"fmt"
+	"math"
 	"math/rand"
 	"strings"
 	"time"
@@ -36,8 +37,16 @@ func init() { register(c17{}) }
 func (c17) ID() string    { return "C17" }
 func (c17) RunFn() string { return "run_C17" }
 func (c17) Workers() int  { return 8 }
+
+// Journal: a call that ends the process (a fatal error the runtime does not let anyone recover, e.g. an allocation
+// of terabytes for a count taken unclamped from the caller) is found through the crash journal and re-run alone.
+func (c17) Journal() bool { return true }
+
+// c17Huge: counts far beyond any queue length; peekn / popn must treat them like len+1 (everything is returned)
+var c17Huge = []int{math.MaxInt, math.MaxInt - 1, 1 << 62, 1 << 32}
+
 func (c17) Rule() string {
-	return "random histories (0-60 ops) over push/pop/popn k/peek/peekn k/empty and DropLast (right after a push as Client.writeHeld calls it, twice in a row, after pops, on an empty queue), and pushes of a Queueable of another type (refused with an error, the queue unchanged - and usable: the calls that follow must return what the FIFO returns; every call has a deadline, one that does not return is reported), k in {-3..len+3} plus extreme values, payloads from a small pool; one push in three re-uses a caller-owned *UnAckedStz that is overwritten after the push, or re-queues the current head (q.Push(q.Peek())); distinct = distinct op-kind/k-class sequence; non-trivial = at least one pop or peek on a non-empty queue and at least 3 ops"
+	return "random histories (0-60 ops) over push/pop/popn k/peek/peekn k/empty and DropLast (right after a push as Client.writeHeld calls it, twice in a row, after pops, on an empty queue), and pushes of a Queueable of another type (refused with an error, the queue unchanged - and usable: the calls that follow must return what the FIFO returns; every call has a deadline, one that does not return is reported), k in {-3..len+3} plus extreme values (a fixed family: peekn / popn with MaxInt, MaxInt-1, 2^62, 2^32 and len+1 on empty queues and on queues of 1, 3 and 8 entries, the queue used again afterwards; the same counts at random in the histories), a call that panics is recorded as what that step returned and reported with the history, payloads from a small pool; one push in three re-uses a caller-owned *UnAckedStz that is overwritten after the push, or re-queues the current head (q.Push(q.Peek())); distinct = distinct op-kind/k-class sequence; non-trivial = at least one pop or peek on a non-empty queue and at least 3 ops"
 }
 
 func (c17) Gen(r *rand.Rand, tier string) []interface{} {
@@ -56,6 +65,22 @@ func (c17) Gen(r *rand.Rand, tier string) []interface{} {
 		c17In{Nil: true, Ops: []qOp{{Op: "pushforeign"}, {Op: "push", S: "x"}, {Op: "empty"}}},
 		c17In{Ops: []qOp{{Op: "droplast"}, {Op: "push", S: "a"}, {Op: "push", S: "b"}, {Op: "droplast"}, {Op: "push", S: "c"}, {Op: "droplast"}, {Op: "droplast"}, {Op: "droplast"}, {Op: "push", S: "d"}}},
 		c17In{Ops: []qOp{{Op: "push", S: "a"}, {Op: "push", S: "b"}, {Op: "popn", K: 2}, {Op: "droplast"}, {Op: "push", S: "c"}, {Op: "pop"}, {Op: "push", S: "d"}, {Op: "droplast"}, {Op: "push", S: "e"}, {Op: "peekn", K: 5}}})
+	// counts beyond the length, huge ones included, on empty and non-empty queues, for both calls; the queue is used again afterwards
+	for _, op := range []string{"peekn", "popn"} {
+		for _, size := range []int{0, 1, 3, 8} {
+			for _, k := range append([]int{size + 1}, c17Huge...) {
+				var ops []qOp
+				for j := 0; j < size; j++ {
+					ops = append(ops, qOp{Op: "push", S: fmt.Sprint("h", j)})
+				}
+				ops = append(ops, qOp{Op: op, K: k}, qOp{Op: "empty"}, qOp{Op: "peek"}, qOp{Op: "push", S: "after"}, qOp{Op: op, K: k}, qOp{Op: "pop"}, qOp{Op: op, K: k}, qOp{Op: "empty"})
+				out = append(out, c17In{Ops: ops})
+			}
+		}
+	}
+	for _, k := range c17Huge {
+		out = append(out, c17In{Nil: true, Ops: []qOp{{Op: "peekn", K: k}, {Op: "popn", K: k}}})
+	}
 	pool := []string{"", "a", "<iq id='1'/>", "<message>é</message>", "x\x00y", strings.Repeat("z", 70)}
 	for i := 0; i < n; i++ {
 		l := r.Intn(61)
@@ -118,7 +143,11 @@ func (c17) Gen(r *rand.Rand, tier string) []interface{} {
 }
 
 func genK(r *rand.Rand, size int) int {
-	switch r.Intn(12) {
+	switch r.Intn(14) {
+	case 12:
+		return c17Huge[r.Intn(len(c17Huge))]
+	case 13:
+		return -c17Huge[r.Intn(len(c17Huge))] - r.Intn(2) // down to MinInt
 	case 0:
 		return -1 << 40
 	case 1:
@@ -222,7 +251,15 @@ func (c17) Run(inp interface{}) Sx {
 	for _, o := range in.Ops {
 		o := o
 		done := make(chan Sx, 1)
-		go func() { done <- c17Call(q, shared, o) }()
+		go func() {
+			// a call that panics: the panic is what this step returned
+			defer func() {
+				if p := recover(); p != nil {
+					done <- L(Z(96), SBytes(fmt.Sprint(p)))
+				}
+			}()
+			done <- c17Call(q, shared, o)
+		}()
 		var r Sx
 		timer := time.NewTimer(c17Deadline)
 		select {
@@ -231,6 +268,11 @@ func (c17) Run(inp interface{}) Sx {
 		case <-timer.C:
 			// the call does not return: reported, the rest of the history cannot run
 			steps = append(steps, L(L(Z(97)), L()))
+			return LS(steps)
+		}
+		if c17Panicked(r) {
+			// the state the call left behind is not looked at (a lock may be held): the history ends here
+			steps = append(steps, L(r, L()))
 			return LS(steps)
 		}
 		var es []Sx
@@ -242,6 +284,10 @@ func (c17) Run(inp interface{}) Sx {
 		steps = append(steps, L(r, LS(es)))
 	}
 	return LS(steps)
+}
+
+func c17Panicked(r Sx) bool {
+	return len(r.L) == 2 && r.L[0].K != "l" && r.L[0].Z == 96 && r.L[1].K == "s"
 }
 
 // c17Normalise rewrites the aliasing variants into plain pushes of the payload they
@@ -321,6 +367,10 @@ func (c17) Oracle(inp interface{}, obs Sx) (string, string) {
 	if n := len(obs.L); n > 0 && n <= len(in.Ops) && len(obs.L[n-1].L) == 2 && len(obs.L[n-1].L[0].L) == 1 && obs.L[n-1].L[0].L[0].Z == 97 {
 		o := in.Ops[n-1]
 		return fmt.Sprintf("step %d (%s k=%d): the call did not return within %v: the queue is blocked (a lock left held by an earlier call?)", n-1, o.Op, o.K, c17Deadline), "blocked-" + o.Op
+	}
+	if n := len(obs.L); n > 0 && n <= len(in.Ops) && len(obs.L[n-1].L) == 2 && c17Panicked(obs.L[n-1].L[0]) {
+		o := in.Ops[n-1]
+		return fmt.Sprintf("step %d (%s n=%d, nil receiver %v): the call panicked: %s", n-1, o.Op, o.K, in.Nil, string(bytesOf(obs.L[n-1].L[0].L[1]))), "panic-" + o.Op
 	}
 	if len(obs.L) != len(in.Ops) {
 		return "step count differs", "shape"
